@@ -175,7 +175,9 @@ func genKqDir(prop string, seed uint64, run int, tier string) *Scenario {
 	// sub-directories) and removed again as the first step of the history: the
 	// sub-directories stay watched directories of their own
 	var ops []Op
-	if g.chance(0.25) {
+	parentStays, nested := false, false
+	if g.chance(0.3) {
+		nested = true
 		par := Op{K: OpAdd, P: "w", Abs: g.chance(0.3)}
 		if g.chance(0.5) {
 			setup = append(setup, par)
@@ -184,17 +186,69 @@ func genKqDir(prop string, seed uint64, run int, tier string) *Scenario {
 			n := len(setup) - len(dirs)
 			setup = append(setup[:n:n], append([]Op{par}, setup[n:]...)...)
 		}
-		ops = append(ops, Op{K: OpRemove, P: "w", Abs: par.Abs})
+		if g.chance(0.5) {
+			ops = append(ops, Op{K: OpRemove, P: "w", Abs: par.Abs})
+		} else {
+			// ... or it stays watched, and plain files come and go in it as well
+			parentStays = true
+		}
+		// (no symbolic link among the parent's entries: a watch on such an entry
+		// follows the link, and what it then reports is outside this property)
+		var ns []Op
+		for _, op := range setup {
+			if op.K != OpSymlink {
+				ns = append(ns, op)
+			}
+		}
+		setup = ns
 	}
 	sc.Setup = setup
 	world := weights("create", 12, "write", 10, "chmod", 6, "unlink", 10, "mkdir", 4, "rmdir", 4, "rename", 10, "renameout", 3, "renamein", 3, "subfile", 2)
+	var pfiles []string
 	for i := 3 + g.r.Intn(24); i > 0; i-- {
+		if parentStays && g.chance(0.25) {
+			if len(pfiles) > 0 && g.chance(0.4) {
+				k := g.r.Intn(len(pfiles))
+				ops = append(ops, Op{K: OpUnlink, P: pfiles[k]})
+				pfiles = append(pfiles[:k], pfiles[k+1:]...)
+			} else {
+				f := fmt.Sprintf("w/pn%d", i)
+				pfiles = append(pfiles, f)
+				ops = append(ops, Op{K: OpCreate, P: f})
+			}
+			continue
+		}
 		for _, o := range g.worldOp(dirs, []int{0, 2, 4}, world) {
 			if o.K == OpYield {
 				continue
 			}
 			ops = append(ops, o)
 		}
+	}
+	if sc.Cfg.Lagfree && !nested && len(ops) >= 6 && g.chance(0.2) {
+		// the watch of one directory is removed for the middle third of the history
+		// and added again: nothing is reported in between, entries that exist at the
+		// second Add are not new, names re-used after it are
+		var add Op
+		for _, op := range setup {
+			if op.K == OpAdd {
+				add = op
+				break
+			}
+		}
+		i1, i2 := len(ops)/3, 2*len(ops)/3
+		d := dirs[0]
+		var no []Op
+		// two names that exist while watched, go away while not, and come back afterwards
+		no = append(no, Op{K: OpCreate, P: d + "/rA"}, Op{K: OpCreate, P: d + "/rB"})
+		no = append(no, ops[:i1]...)
+		no = append(no, Op{K: OpRemove, P: add.P, Abs: add.Abs})
+		no = append(no, Op{K: OpUnlink, P: d + "/rA"}, Op{K: OpUnlink, P: d + "/rB"})
+		no = append(no, ops[i1:i2]...)
+		no = append(no, add)
+		no = append(no, Op{K: OpCreate, P: d + "/rA"}, Op{K: OpCreate, P: d + "/rB"})
+		no = append(no, ops[i2:]...)
+		ops = no
 	}
 	sc.Tasks = []TaskScript{{Name: "seq", Role: "world", Ops: ops}}
 	return sc
